@@ -27,7 +27,7 @@ def kcx : Cx where
   W := ["K"]
   bindL := [("K", 0)]
   I := fun _ β σ _ => σ.cells[0]? = some (.bool true) ∧ 0 < β.cL ∧ ∀ b, ¬ β.c 0 b
-  stable := fun _ β β' σ σ' s s' he hf hI => by
+  stable := fun _ β β' σ σ' s s' he _ hf hI => by
     obtain ⟨h1, h2, h3⟩ := hI
     refine ⟨hf.cL 0 _ h2 h3 h1, Nat.lt_of_lt_of_le h2 he.front.1, fun b hb => ?_⟩
     rcases he.freshC 0 b hb with h | h
